@@ -15,8 +15,8 @@ def run(ctx):
     ctx.rule("R10-4", "`$NAME` yields the CURRENT value: the exported environment is read before the shell-local map "
                       "(see C09 R09-7)")
     ctx.rule("R10-5", "the gate (env_in_token) and the rewriter (expand_one_env) may disagree on what a reference is: the "
-                      "loop that re-applies the rewriter leaves when a rewrite changed nothing (explicit comparison of "
-                      "the new text with the old on every cycle)")
+                      "rewriter is applied once per word, or - when expand_env re-applies it in a loop - the loop leaves "
+                      "when a rewrite changed nothing (explicit comparison of the new text with the old on every cycle)")
     ctx.rule("R10-6", "the rewriter is applied only to text the gate has just accepted: at every call of expand_one_env(t) "
                       "the fact env_in_token(t) == true holds for the current value of t on every path (the gate keeps "
                       "`$1`, `$(...)`, `NAME='..$X..'` and text without a reference away from the rewriter, whose own "
@@ -100,7 +100,16 @@ def fixpoint_rule(ctx, crate, b, scanners):
         ctx.ob("R10-5", b.path, "the rewrite loop leaves when expand_one_env changed nothing", ok,
                key="R10-5|%s|fixpoint" % b.path, where=b.loc(h), crate=crate.kind,
                detail=detail if not ok else None)
-    ctx.require(n == 1, "R10-5", "R10-5|%s|loop" % b.path, "expected one loop gated by a `$` scanner in expand_env, found %d" % n,
+    if n == 0:
+        # no re-application at all: the rewriter must then be called outside every loop but the token scan
+        calls = [bb for bb, t, c in b.calls() if c in scanners and last_seg(c) != "env_in_token" and
+                 any(last_seg(c) == x for x in ("expand_one_env",))]
+        inner = [bb for bb in calls if sum(1 for h, bl in b.loops().items() if bb in bl) > 1]
+        ctx.ob("R10-5", b.path, "the rewriter is applied once per token (no re-application loop; %d call site(s))" % len(calls),
+               bool(calls) and not inner, key="R10-5|%s|fixpoint" % b.path, crate=crate.kind,
+               detail=None if calls and not inner else "expand_one_env is called inside a nested loop that no `$` scanner gates")
+        return
+    ctx.require(n == 1, "R10-5", "R10-5|%s|loop" % b.path, "expected at most one loop gated by a `$` scanner in expand_env, found %d" % n,
                 b.path)
 
 
